@@ -33,8 +33,9 @@ Verdict(ev) ==
               ELSE IF ev.res.err9 > 10000 THEN "round-trip-beyond-5-decimals"
               ELSE "ok"
          [] ev.kind = "events" ->
-              IF ev.res.evs = AdjustEventsSpec(ev.inp.evs, ev.inp.tmin, ev.inp.tmax) THEN "ok"
-              ELSE "events-differ"
+              IF ev.res.evs # AdjustEventsSpec(ev.inp.evs, ev.inp.tmin, ev.inp.tmax) THEN "events-differ"
+              ELSE IF ev.res.labs # AdjustEventLabelsSpec(ev.inp.evs, [k \in 1..Len(ev.inp.evs) |-> ev.inp.elabs[k]], ev.inp.tmin, ev.inp.tmax) THEN "event-labels-differ"
+              ELSE "ok"
 Class(ev) == IF ev.kind = "adjust" THEN AdjustClass(Pairs(ev.inp.ivs), ev.inp.tmin, ev.inp.tmax) ELSE "general"
 Init == i \in 1..Len(TraceLog) /\ done = FALSE
 Next == /\ ~done /\ done' = TRUE /\ UNCHANGED i
